@@ -91,12 +91,13 @@ def BisectOk (name : Nat → Bytes) (sha : Bytes) (lo e : Nat) (r : Option Nat) 
   (∀ i, r = some i → lo ≤ i ∧ i < e ∧ name i = sha) ∧
   (r = none → ∀ k, lo ≤ k → k < e → name k ≠ sha)
 
-/-- Binary search over `[lo, e]` **inclusive** of a table that is strictly sorted on `[lo, e)`, whose
-slot `e` (one past the group) holds anything but the probe: finds the probe iff it is in `[lo, e)`. -/
+/-- Binary search over `[start, hi)` of a table that is strictly sorted on `[lo, e)`.  Either the search
+never reaches slot `e` (`hi ≤ e`: the repaired call site) or it may (`hi = e + 1`: the old call site) and
+then slot `e`, one past the group, must hold anything but the probe.  Finds the probe iff it is in `[lo, e)`. -/
 theorem bisect_spec (name : Nat → Bytes) (sha : Bytes) (lo e : Nat)
-    (hsorted : ∀ i j, lo ≤ i → i < j → j < e → bytesLt (name i) (name j) = true)
-    (hend : name e ≠ sha) :
+    (hsorted : ∀ i j, lo ≤ i → i < j → j < e → bytesLt (name i) (name j) = true) :
     ∀ (fuel start hi : Nat), lo ≤ start → hi ≤ e + 1 → hi - start ≤ fuel →
+      (hi ≤ e ∨ name e ≠ sha) →
       (∀ k, lo ≤ k → k < start → k < e → bytesLt (name k) sha = true) →
       (∀ k, hi ≤ k → k < e → bytesLt sha (name k) = true) →
       BisectOk name sha lo e (bisect name sha fuel start hi) := by
@@ -112,11 +113,11 @@ theorem bisect_spec (name : Nat → Bytes) (sha : Bytes) (lo e : Nat)
     · exact (bytesLt_ne (hB k (by omega) hk2)).symm
   induction fuel with
   | zero =>
-    intro start hi _ _ hf hA hB
+    intro start hi _ _ hf _ hA hB
     simp only [bisect]
     exact hnone start hi (by omega) hA hB
   | succ fuel ih =>
-    intro start hi hlo hhi hf hA hB
+    intro start hi hlo hhi hf hend hA hB
     simp only [bisect]
     by_cases hlt : start < hi
     · simp only [hlt, if_true, Gen.Pack.bisectDiv, Gen.Pack.bisectUp, Gen.Pack.bisectDown]
@@ -128,7 +129,7 @@ theorem bisect_spec (name : Nat → Bytes) (sha : Bytes) (lo e : Nat)
       intro i hmid hi1 hi2
       by_cases h1 : bytesLt (name i) sha = true
       · simp only [h1, if_true]
-        apply ih (i + 1) hi (by omega) hhi (by omega) _ hB
+        apply ih (i + 1) hi (by omega) hhi (by omega) hend _ hB
         intro k hk1 hk2 hk3
         by_cases hki : k = i
         · subst hki; exact h1
@@ -142,7 +143,7 @@ theorem bisect_spec (name : Nat → Bytes) (sha : Bytes) (lo e : Nat)
         · simp only [h2, if_true]
           have e1 : i + 1 - 1 = i := by omega
           rw [e1]
-          apply ih start i hlo (by omega) (by omega) hA
+          apply ih start i hlo (by omega) (by omega) (by rcases hend with h | h; exact Or.inl (by omega); exact Or.inr h) hA
           intro k hk1 hk2
           by_cases hki : k = i
           · subst hki; exact h2
@@ -155,7 +156,10 @@ theorem bisect_spec (name : Nat → Bytes) (sha : Bytes) (lo e : Nat)
           cases hj
           refine ⟨by omega, ?_, heq⟩
           by_cases hie : i = e
-          · subst hie; exact absurd heq hend
+          · subst hie
+            rcases hend with h | h
+            · omega
+            · exact absurd heq h
           · omega
     · simp only [hlt, if_false]
       exact hnone start hi hlt hA hB
@@ -489,18 +493,6 @@ theorem slice_skip' (a b : Bytes) (n o off k : Nat) (h : a.length = n) (ho : off
     slice (a ++ b) off k = slice b o k := by
   subst ho; exact slice_skip a b n o k h
 
-def v2Pre : Bytes := Gen.Pack.idxMagic ++ beBytes 4 Gen.Pack.idxV2Version
-
-theorem v2Pre_length : v2Pre.length = 8 := by simp [v2Pre, Gen.Pack.idxMagic, beBytes_length]
-
-/-- What follows the name table. -/
-def v2AfterNames (H : Bytes → Bytes) (es : List IdxEntry) (cs : Bytes) : Bytes :=
-  crcTable es ++ (ofsWords 0 es ++ (largeWords es ++ (cs ++ H (v2Body es cs))))
-
-theorem v2_file (H : Bytes → Bytes) (es : List IdxEntry) (cs : Bytes) :
-    v2File H es cs = v2Pre ++ (fanoutBytes es ++ (nameTable es ++ v2AfterNames H es cs)) := by
-  simp [v2File, v2Body, v2Pre, v2AfterNames, List.append_assoc]
-
 theorem readFanFrom_ok (a b : Bytes) (g : Nat → Nat) (N start : Nat) (ha : a.length = start)
     (hg : ∀ j, g j < 256 ^ 4) : ∀ (k i : Nat), i + k ≤ N →
     readFanFrom (a ++ ((List.range N).flatMap (fun j => beBytes 4 (g j)) ++ b)) start k i
@@ -528,70 +520,47 @@ theorem cumul_lt (es : List IdxEntry) (hn : es.length < 2 ^ 31) (b : Nat) : cumu
   rw [← cumul_eq_countLe] at this
   omega
 
-/-- Loading the written file. -/
-theorem load_v2 (H : Bytes → Bytes) (es : List IdxEntry) (cs : Bytes) (hs : Nat) (hn : es.length < 2 ^ 31) :
-    loadIndex hs (v2File H es cs)
-      = .ok ⟨2, hs, v2File H es cs, (List.range' 0 256).map (cumul es), es.length, Gen.Pack.v2NameAt⟩ := by
-  have hmagic : (v2File H es cs).take Gen.Pack.loadMagicLen = Gen.Pack.idxMagic := by
-    rw [v2_file]; simp [v2Pre, Gen.Pack.idxMagic, Gen.Pack.loadMagicLen]
-  have hver : beAt 4 (v2File H es cs) Gen.Pack.loadVersionAt = some Gen.Pack.idxV2Version := by
-    rw [v2_file, v2Pre, List.append_assoc]
-    exact beAt_beBytes 4 _ _ _ _ (by simp [Gen.Pack.idxMagic, Gen.Pack.loadVersionAt]) (by decide)
-  have hfan : readFan (v2File H es cs) Gen.Pack.v2FanAt = .ok ((List.range' 0 256).map (cumul es)) := by
-    rw [v2_file]
-    unfold readFan fanoutBytes
-    simp only [Gen.Pack.fanEntryBytes, Gen.Pack.fanoutSize]
-    exact readFanFrom_ok v2Pre _ (cumul es) 256 _ (by rw [v2Pre_length]; rfl) (cumul_lt es hn) 256 0 (by omega)
-  have hlast : lastOr0 ((List.range' 0 256).map (cumul es)) = es.length := by
-    unfold lastOr0
-    simp only [Gen.Pack.fanoutSize]
-    have : ((List.range' 0 256).map (cumul es))[256 - 1]? = some (cumul es 255) := by
-      simp [List.getElem?_map, List.getElem?_range']
-    rw [this]
-    simp only
-    rw [cumul_eq_countLe, countLe_255]
-  unfold loadIndex
-  simp only [hmagic, if_true, hver, hfan, hlast]
+/-- A file made of a header prefix, the fan-out table, the name, CRC, offset and large-offset tables and a
+tail: the common shape of index versions 2 and 3. -/
+def tabled (pre : Bytes) (es : List IdxEntry) (tail : Bytes) : Bytes :=
+  pre ++ (fanoutBytes es ++ (nameTable es ++ (crcTable es ++ (ofsWords 0 es ++ (largeWords es ++ tail)))))
 
-theorem nameAt_v2 (H : Bytes → Bytes) (es : List IdxEntry) (cs : Bytes) (hs : Nat)
+/-- The field values of a loaded v2/v3 index, as hypotheses on an abstract `x` (keeps the kernel away
+from projections of a literal structure). -/
+structure IsTabled (x : Idx) (es : List IdxEntry) (hs : Nat) (pre tail : Bytes) : Prop where
+  version : ¬ x.version = 1
+  hs : x.hs = hs
+  c : x.c = tabled pre es tail
+  n : x.n = es.length
+  nameOff : x.nameOff = pre.length + 1024
+  fan : x.fan = (List.range' 0 256).map (cumul es)
+
+theorem nameAt_tabled (x : Idx) (es : List IdxEntry) (hs : Nat) (pre tail : Bytes) (hx : IsTabled x es hs pre tail)
     (hnames : ∀ e ∈ es, e.name.length = hs) (i : Nat) (hi : i < es.length) :
-    (v2Idx H es cs hs).nameAt i = es[i].name := by
-  unfold Idx.nameAt v2Idx
-  simp only [show ¬ (2 : Nat) = 1 by decide, if_false, Gen.Pack.v2NameAt]
-  rw [v2_file]
-  rw [slice_skip' _ _ 8 (1024 + i * hs) _ _ v2Pre_length (by omega)]
+    x.nameAt i = es[i].name := by
+  unfold Idx.nameAt
+  rw [if_neg hx.version, hx.c, hx.nameOff, hx.hs]
+  unfold tabled
+  rw [slice_skip' _ _ pre.length (1024 + i * hs) _ _ rfl (by omega)]
   rw [slice_skip' _ _ 1024 (i * hs) _ _ (fanoutBytes_length es) (by omega)]
   have h2 : (i + 1) * hs ≤ es.length * hs := Nat.mul_le_mul_right hs (by omega)
   rw [slice_within _ _ _ _ (by rw [nameTable_length es hs hnames, Nat.mul_comm hs]; rw [Nat.succ_mul] at h2; exact h2)]
   exact slice_flatMap (fun e => e.name) hs es i hi hnames
 
 /-- `_unpack_name(len(index))`: the `hs` bytes that follow the name table. -/
-theorem nameAt_v2_phantom (H : Bytes → Bytes) (es : List IdxEntry) (cs : Bytes) (hs : Nat)
-    (hnames : ∀ e ∈ es, e.name.length = hs) :
-    (v2Idx H es cs hs).nameAt es.length = (v2AfterNames H es cs).take hs := by
-  unfold Idx.nameAt v2Idx
-  simp only [show ¬ (2 : Nat) = 1 by decide, if_false, Gen.Pack.v2NameAt]
-  rw [v2_file]
-  rw [slice_skip' _ _ 8 (1024 + es.length * hs) _ _ v2Pre_length (by omega)]
+theorem nameAt_tabled_phantom (x : Idx) (es : List IdxEntry) (hs : Nat) (pre tail : Bytes)
+    (hx : IsTabled x es hs pre tail) (hnames : ∀ e ∈ es, e.name.length = hs) :
+    x.nameAt es.length = (crcTable es ++ (ofsWords 0 es ++ (largeWords es ++ tail))).take hs := by
+  unfold Idx.nameAt
+  rw [if_neg hx.version, hx.c, hx.nameOff, hx.hs]
+  unfold tabled
+  rw [slice_skip' _ _ pre.length (1024 + es.length * hs) _ _ rfl (by omega)]
   rw [slice_skip' _ _ 1024 (es.length * hs) _ _ (fanoutBytes_length es) (by omega)]
   rw [slice_skip' _ _ (es.length * hs) 0 _ _ (by rw [nameTable_length es hs hnames, Nat.mul_comm]) (by omega)]
   simp [slice]
 
-/-- The field values of the loaded v2 index, as hypotheses on an abstract `x` (keeps the kernel away
-from projections of a literal structure). -/
-structure IsV2 (x : Idx) (H : Bytes → Bytes) (es : List IdxEntry) (cs : Bytes) (hs : Nat) : Prop where
-  version : x.version = 2
-  hs : x.hs = hs
-  c : x.c = v2File H es cs
-  n : x.n = es.length
-  nameOff : x.nameOff = Gen.Pack.v2NameAt
-  fan : x.fan = (List.range' 0 256).map (cumul es)
-
-theorem v2Idx_isV2 (H : Bytes → Bytes) (es : List IdxEntry) (cs : Bytes) (hs : Nat) :
-    IsV2 (v2Idx H es cs hs) H es cs hs := ⟨rfl, rfl, rfl, rfl, rfl, rfl⟩
-
-theorem offsetAt_v2 (x : Idx) (H : Bytes → Bytes) (es : List IdxEntry) (cs : Bytes) (hs : Nat)
-    (hx : IsV2 x H es cs hs)
+theorem offsetAt_tabled (x : Idx) (es : List IdxEntry) (hs : Nat) (pre tail : Bytes)
+    (hx : IsTabled x es hs pre tail)
     (hnames : ∀ e ∈ es, e.name.length = hs) (hn : es.length < 2 ^ 31)
     (hoff : ∀ e ∈ es, e.offset < 2 ^ 64) (i : Nat) (hi : i < es.length) :
     x.offsetAt i = .ok es[i].offset := by
@@ -600,32 +569,32 @@ theorem offsetAt_v2 (x : Idx) (H : Bytes → Bytes) (es : List IdxEntry) (cs : B
   have hO := ofsWords_length es 0
   have hL := largeWords_length es
   -- the 4-byte word
-  have hword : slice (v2File H es cs) (Gen.Pack.v2NameAt + hs * es.length + Gen.Pack.v2CrcWidth * es.length
+  have hword : slice (tabled pre es tail) (pre.length + 1024 + hs * es.length + Gen.Pack.v2CrcWidth * es.length
       + i * Gen.Pack.ofsEntryWidth) 4
       = if es[i].offset < Gen.Pack.largeFlag then beBytes 4 es[i].offset
         else beBytes 4 (Gen.Pack.largeFlag + (0 + countLarge (es.take i))) := by
-    simp only [Gen.Pack.v2NameAt, Gen.Pack.v2CrcWidth, Gen.Pack.ofsEntryWidth]
-    rw [v2_file, v2AfterNames]
-    rw [slice_skip' _ _ 8 (1024 + hs * es.length + 4 * es.length + i * 4) _ _ v2Pre_length (by omega)]
+    simp only [Gen.Pack.v2CrcWidth, Gen.Pack.ofsEntryWidth]
+    unfold tabled
+    rw [slice_skip' _ _ pre.length (1024 + hs * es.length + 4 * es.length + i * 4) _ _ rfl (by omega)]
     rw [slice_skip' _ _ 1024 (hs * es.length + 4 * es.length + i * 4) _ _ (fanoutBytes_length es) (by omega)]
     rw [slice_skip' _ _ (hs * es.length) (4 * es.length + i * 4) _ _ hN (by omega)]
     rw [slice_skip' _ _ (4 * es.length) (i * 4) _ _ hC (by omega)]
     rw [slice_within _ _ _ _ (by rw [hO]; omega)]
     exact ofsWords_slice es 0 i hi
-  have hOO : x.ofsOff = Gen.Pack.v2NameAt + hs * es.length + Gen.Pack.v2CrcWidth * es.length := by
+  have hOO : x.ofsOff = pre.length + 1024 + hs * es.length + Gen.Pack.v2CrcWidth * es.length := by
     unfold Idx.ofsOff Idx.crcOff
     rw [hx.hs, hx.n, hx.nameOff]
-  have hLO : x.largeOff = Gen.Pack.v2NameAt + hs * es.length + Gen.Pack.v2CrcWidth * es.length
+  have hLO : x.largeOff = pre.length + 1024 + hs * es.length + Gen.Pack.v2CrcWidth * es.length
       + Gen.Pack.v2OfsWidth * es.length := by
     unfold Idx.largeOff
     rw [hOO, hx.n]
   unfold Idx.offsetAt
-  rw [hx.version, if_neg (show ¬ (2 : Nat) = 1 by decide)]
+  rw [if_neg hx.version]
   unfold Idx.offsetAtV2
   rw [hx.c, hOO]
   by_cases hsmall : es[i].offset < Gen.Pack.largeFlag
   · have hlt : es[i].offset < 256 ^ 4 := by simp only [Gen.Pack.largeFlag] at hsmall; omega
-    have h4 : beAt 4 (v2File H es cs) (Gen.Pack.v2NameAt + hs * es.length + Gen.Pack.v2CrcWidth * es.length
+    have h4 : beAt 4 (tabled pre es tail) (pre.length + 1024 + hs * es.length + Gen.Pack.v2CrcWidth * es.length
         + i * Gen.Pack.ofsEntryWidth) = some es[i].offset := by
       unfold beAt
       rw [hword, if_pos hsmall, beBytes_length, if_pos rfl, beVal_beBytes 4 _ hlt]
@@ -637,7 +606,7 @@ theorem offsetAt_v2 (x : Idx) (H : Bytes → Bytes) (es : List IdxEntry) (cs : B
     have hv : Gen.Pack.largeFlag + (0 + countLarge (es.take i)) < 256 ^ 4 := by
       simp only [Gen.Pack.largeFlag]; omega
     have hge : ¬ Gen.Pack.largeFlag + (0 + countLarge (es.take i)) < Gen.Pack.largeFlag := by omega
-    have h4 : beAt 4 (v2File H es cs) (Gen.Pack.v2NameAt + hs * es.length + Gen.Pack.v2CrcWidth * es.length
+    have h4 : beAt 4 (tabled pre es tail) (pre.length + 1024 + hs * es.length + Gen.Pack.v2CrcWidth * es.length
         + i * Gen.Pack.ofsEntryWidth) = some (Gen.Pack.largeFlag + (0 + countLarge (es.take i))) := by
       unfold beAt
       rw [hword, if_neg hsmall, beBytes_length, if_pos rfl, beVal_beBytes 4 _ hv]
@@ -645,13 +614,13 @@ theorem offsetAt_v2 (x : Idx) (H : Bytes → Bytes) (es : List IdxEntry) (cs : B
     simp only [hge, if_false]
     have hsub : (Gen.Pack.largeFlag + (0 + countLarge (es.take i))) % Gen.Pack.largeFlag = countLarge (es.take i) := by
       simp only [Gen.Pack.largeFlag]; omega
-    have hbig : slice (v2File H es cs) (Gen.Pack.v2NameAt + hs * es.length + Gen.Pack.v2CrcWidth * es.length
+    have hbig : slice (tabled pre es tail) (pre.length + 1024 + hs * es.length + Gen.Pack.v2CrcWidth * es.length
         + Gen.Pack.v2OfsWidth * es.length + countLarge (es.take i) * Gen.Pack.largeEntryWidth) 8
         = beBytes 8 es[i].offset := by
-      simp only [Gen.Pack.v2NameAt, Gen.Pack.v2CrcWidth, Gen.Pack.v2OfsWidth, Gen.Pack.largeEntryWidth]
-      rw [v2_file, v2AfterNames]
-      rw [slice_skip' _ _ 8 (1024 + hs * es.length + 4 * es.length + 4 * es.length + countLarge (es.take i) * 8)
-        _ _ v2Pre_length (by omega)]
+      simp only [Gen.Pack.v2CrcWidth, Gen.Pack.v2OfsWidth, Gen.Pack.largeEntryWidth]
+      unfold tabled
+      rw [slice_skip' _ _ pre.length (1024 + hs * es.length + 4 * es.length + 4 * es.length + countLarge (es.take i) * 8)
+        _ _ rfl (by omega)]
       rw [slice_skip' _ _ 1024 (hs * es.length + 4 * es.length + 4 * es.length + countLarge (es.take i) * 8)
         _ _ (fanoutBytes_length es) (by omega)]
       rw [slice_skip' _ _ (hs * es.length) (4 * es.length + 4 * es.length + countLarge (es.take i) * 8) _ _ hN (by omega)]
@@ -660,7 +629,7 @@ theorem offsetAt_v2 (x : Idx) (H : Bytes → Bytes) (es : List IdxEntry) (cs : B
       rw [slice_within _ _ _ _ (by rw [hL]; omega)]
       exact largeWords_slice es i hi hsmall
     have h64 : es[i].offset < 256 ^ 8 := hoff _ (List.getElem_mem hi)
-    have h8 : beAt 8 (v2File H es cs) (Gen.Pack.v2NameAt + hs * es.length + Gen.Pack.v2CrcWidth * es.length
+    have h8 : beAt 8 (tabled pre es tail) (pre.length + 1024 + hs * es.length + Gen.Pack.v2CrcWidth * es.length
         + Gen.Pack.v2OfsWidth * es.length + countLarge (es.take i) * Gen.Pack.largeEntryWidth) = some es[i].offset := by
       unfold beAt
       rw [hbig, beBytes_length, if_pos rfl, beVal_beBytes 8 _ h64]
@@ -741,5 +710,338 @@ theorem write_v2_ok (H : Bytes → Bytes) (es : List IdxEntry) (cs : Bytes) (hs 
     intro e he
     simpa using hfield e he
   simp only [h1, if_false, h2, Bool.false_eq_true, h3, h4, not_true_eq_false, v2File]
+
+/-! ### the lookup, for any index version: all it needs from the file -/
+
+/-- What the lookup needs to know about a loaded index `x` of the entries `es`. -/
+structure IdxFacts (x : Idx) (es : List IdxEntry) (hs : Nat) : Prop where
+  hs : x.hs = hs
+  fan : x.fan = (List.range' 0 256).map (cumul es)
+  name : ∀ i (hi : i < es.length), x.nameAt i = es[i].name
+  offset : ∀ i (hi : i < es.length), x.offsetAt i = .ok es[i].offset
+
+/-- No entry of a sorted list has first byte `b` iff the group `[countLt b, countLe b)` is empty, and the
+entries named `sha` lie in the group of `sha`'s first byte. -/
+theorem group_of_name (es : List IdxEntry) (hsorted : Sorted es) (sha : Bytes) (j : Nat) (hj : j < es.length)
+    (heq : es[j].name = sha) :
+    countLt es (firstByte sha) ≤ j ∧ j < countLe es (firstByte sha) := by
+  have hmono := hsorted.firstBytes
+  have hfj : firstByte es[j].name = firstByte sha := by rw [heq]
+  have h1 := (countLt_iff es (firstByte sha) j hj hmono).not.mpr (by omega)
+  have h2 := (countLt_iff es (firstByte sha + 1) j hj hmono).mpr (by omega)
+  rw [← countLe_eq_countLt] at h2
+  omega
+
+/-- **The repaired lookup is exact**: `bisect_find_sha(start, end - 1)` after `if start == end: KeyError`. -/
+theorem lookup_correct (x : Idx) (es : List IdxEntry) (hs : Nat) (sha : Bytes) (hx : IdxFacts x es hs)
+    (hsha : sha.length = hs) (hsorted : Sorted es) :
+    x.lookupWith 1 1 sha = match es.find? (fun e => decide (e.name = sha)) with
+                           | some e => .ok e.offset
+                           | none => .error .key := by
+  have hfb := firstByte_lt sha
+  have hstart : (if firstByte sha = 0 then some 0 else ((List.range' 0 256).map (cumul es))[firstByte sha - 1]?)
+      = some (countLt es (firstByte sha)) := by
+    by_cases h0 : firstByte sha = 0
+    · rw [if_pos h0, h0, countLt_zero]
+    · rw [if_neg h0, fan_get es _ (by omega), cumul_eq_countLe, countLe_eq_countLt]
+      congr 2; omega
+  have hend : ((List.range' 0 256).map (cumul es))[firstByte sha]? = some (countLe es (firstByte sha)) := by
+    rw [fan_get es _ hfb, cumul_eq_countLe]
+  have hle : countLt es (firstByte sha) ≤ countLe es (firstByte sha) := countLt_le_countLe es _
+  have hen : countLe es (firstByte sha) ≤ es.length := countLe_le es _
+  have hnofind : (∀ k, countLt es (firstByte sha) ≤ k → k < countLe es (firstByte sha) → x.nameAt k ≠ sha) →
+      es.find? (fun e => decide (e.name = sha)) = none := by
+    intro hnone
+    rw [List.find?_eq_none]
+    intro e he
+    obtain ⟨j, hj, rfl⟩ := List.getElem_of_mem he
+    simp only [decide_eq_true_eq]
+    intro heq
+    obtain ⟨h1, h2⟩ := group_of_name es hsorted sha j hj heq
+    have := hnone j h1 h2
+    rw [hx.name j hj] at this
+    exact this heq
+  unfold Idx.lookupWith
+  rw [hx.hs, hx.fan]
+  simp only [hsha, ne_eq, not_true_eq_false, if_false, hstart, hend, Gen.Pack.bisectInclusive]
+  rw [if_neg (by omega)]
+  by_cases hempty : countLe es (firstByte sha) < countLt es (firstByte sha) + 1
+  · rw [if_pos hempty]
+    simp only [if_true]
+    rw [hnofind (by intro k h1 h2; omega)]
+  · rw [if_neg hempty]
+    have hbis := bisect_spec x.nameAt sha (countLt es (firstByte sha)) (countLe es (firstByte sha))
+      (by
+        intro i j hi hij hj
+        rw [hx.name i (by omega), hx.name j (by omega)]
+        exact (List.pairwise_iff_getElem.mp hsorted) i j (by omega) (by omega) hij)
+      (countLe es (firstByte sha) + 1 - 1 - countLt es (firstByte sha)) (countLt es (firstByte sha))
+      (countLe es (firstByte sha) + 1 - 1) (Nat.le_refl _) (by omega) (Nat.le_refl _) (Or.inl (by omega))
+      (by intro k h1 h2; omega) (by intro k h1 h2; omega)
+    generalize hr : bisect x.nameAt sha
+      (countLe es (firstByte sha) + 1 - 1 - countLt es (firstByte sha)) (countLt es (firstByte sha))
+      (countLe es (firstByte sha) + 1 - 1) = r at hbis
+    cases r with
+    | some i =>
+      obtain ⟨hi1, hi2, hi3⟩ := hbis.1 i rfl
+      have hin : i < es.length := by omega
+      rw [hx.name i hin] at hi3
+      simp only
+      rw [hx.offset i hin, ← hi3, find_sorted es i hin hsorted]
+    | none =>
+      have hnone := hbis.2 rfl
+      simp only
+      rw [hnofind hnone]
+
+/-! ### version 2 -/
+
+def v2Pre : Bytes := Gen.Pack.idxMagic ++ beBytes 4 Gen.Pack.idxV2Version
+
+theorem v2Pre_length : v2Pre.length = 8 := by simp [v2Pre, Gen.Pack.idxMagic, beBytes_length]
+
+theorem v2_file (H : Bytes → Bytes) (es : List IdxEntry) (cs : Bytes) :
+    v2File H es cs = tabled v2Pre es (cs ++ H (v2Body es cs)) := by
+  simp [v2File, v2Body, v2Pre, tabled, List.append_assoc]
+
+theorem lastOr0_fan (es : List IdxEntry) : lastOr0 ((List.range' 0 256).map (cumul es)) = es.length := by
+  unfold lastOr0
+  simp only [Gen.Pack.fanoutSize]
+  have : ((List.range' 0 256).map (cumul es))[256 - 1]? = some (cumul es 255) := by
+    simp [List.getElem?_map]
+  rw [this]
+  simp only
+  rw [cumul_eq_countLe, countLe_255]
+
+theorem readFan_tabled (pre tail : Bytes) (es : List IdxEntry) (hn : es.length < 2 ^ 31) :
+    readFan (tabled pre es tail) pre.length = .ok ((List.range' 0 256).map (cumul es)) := by
+  unfold readFan tabled fanoutBytes
+  simp only [Gen.Pack.fanEntryBytes, Gen.Pack.fanoutSize]
+  exact readFanFrom_ok pre _ (cumul es) 256 _ rfl (cumul_lt es hn) 256 0 (by omega)
+
+/-- Loading the written file. -/
+theorem load_v2 (H : Bytes → Bytes) (es : List IdxEntry) (cs : Bytes) (hs : Nat) (hn : es.length < 2 ^ 31) :
+    loadIndex hs (v2File H es cs) = .ok (v2Idx H es cs hs) := by
+  have hmagic : (v2File H es cs).take Gen.Pack.loadMagicLen = Gen.Pack.idxMagic := by
+    rw [v2_file]; simp [tabled, v2Pre, Gen.Pack.idxMagic, Gen.Pack.loadMagicLen]
+  have hver : beAt 4 (v2File H es cs) Gen.Pack.loadVersionAt = some Gen.Pack.idxV2Version := by
+    rw [v2_file, tabled, v2Pre, List.append_assoc]
+    exact beAt_beBytes 4 _ _ _ _ (by simp [Gen.Pack.idxMagic, Gen.Pack.loadVersionAt]) (by decide)
+  have hfan : readFan (v2File H es cs) Gen.Pack.v2FanAt = .ok ((List.range' 0 256).map (cumul es)) := by
+    rw [v2_file]
+    have := readFan_tabled v2Pre (cs ++ H (v2Body es cs)) es hn
+    rw [v2Pre_length] at this
+    exact this
+  unfold loadIndex
+  simp only [hmagic, if_true, hver, hfan, lastOr0_fan, v2Idx]
+
+theorem v2Idx_tabled (H : Bytes → Bytes) (es : List IdxEntry) (cs : Bytes) (hs : Nat) :
+    IsTabled (v2Idx H es cs hs) es hs v2Pre (cs ++ H (v2Body es cs)) :=
+  ⟨show ¬ (2 : Nat) = 1 by decide, rfl, v2_file H es cs, rfl, by rw [v2Pre_length]; rfl, rfl⟩
+
+theorem facts_of_tabled (x : Idx) (es : List IdxEntry) (hs : Nat) (pre tail : Bytes) (hx : IsTabled x es hs pre tail)
+    (hnames : ∀ e ∈ es, e.name.length = hs) (hn : es.length < 2 ^ 31) (hoff : ∀ e ∈ es, e.offset < 2 ^ 64) :
+    IdxFacts x es hs :=
+  ⟨hx.hs, hx.fan, fun i hi => nameAt_tabled x es hs pre tail hx hnames i hi,
+    fun i hi => offsetAt_tabled x es hs pre tail hx hnames hn hoff i hi⟩
+
+/-! ### version 3 (SHA-1; `write_pack_index_v3` raises `NotImplementedError` for SHA-256) -/
+
+def v3Pre : Bytes :=
+  Gen.Pack.idxMagic ++ beBytes 4 Gen.Pack.idxV3Version ++ beBytes 4 Gen.Pack.v3FmtSha1 ++ beBytes 4 Gen.Pack.v3LenSha1
+
+theorem v3Pre_length : v3Pre.length = 16 := by simp [v3Pre, Gen.Pack.idxMagic, beBytes_length]
+
+theorem v3_file (H : Bytes → Bytes) (es : List IdxEntry) (cs : Bytes) :
+    v3File H es cs = tabled v3Pre es (cs ++ H (v3Body es cs Gen.Pack.v3FmtSha1 Gen.Pack.v3LenSha1)) := by
+  simp [v3File, v3Body, v3Pre, tabled, List.append_assoc]
+
+theorem load_v3 (H : Bytes → Bytes) (es : List IdxEntry) (cs : Bytes) (hn : es.length < 2 ^ 31) :
+    loadIndex Gen.Pack.sha1Len (v3File H es cs) = .ok (v3Idx H es cs) := by
+  have hmagic : (v3File H es cs).take Gen.Pack.loadMagicLen = Gen.Pack.idxMagic := by
+    rw [v3_file]; simp [tabled, v3Pre, Gen.Pack.idxMagic, Gen.Pack.loadMagicLen]
+  have hver : beAt 4 (v3File H es cs) Gen.Pack.loadVersionAt = some Gen.Pack.idxV3Version := by
+    rw [v3_file, tabled, v3Pre]
+    simp only [List.append_assoc]
+    exact beAt_beBytes 4 _ _ _ _ (by simp [Gen.Pack.idxMagic, Gen.Pack.loadVersionAt]) (by decide)
+  have hfmt : beAt 4 (v3File H es cs) Gen.Pack.v3FmtAt = some Gen.Pack.v3FmtSha1 := by
+    rw [v3_file, tabled, v3Pre]
+    simp only [List.append_assoc]
+    rw [← List.append_assoc Gen.Pack.idxMagic]
+    exact beAt_beBytes 4 _ _ _ _ (by simp [Gen.Pack.idxMagic, Gen.Pack.v3FmtAt, beBytes_length]) (by decide)
+  have hshort : beAt 4 (v3File H es cs) Gen.Pack.v3ShortLenAt = some Gen.Pack.v3LenSha1 := by
+    rw [v3_file, tabled, v3Pre]
+    simp only [List.append_assoc]
+    rw [← List.append_assoc (beBytes 4 Gen.Pack.idxV3Version), ← List.append_assoc Gen.Pack.idxMagic]
+    exact beAt_beBytes 4 _ _ _ _ (by simp [Gen.Pack.idxMagic, Gen.Pack.v3ShortLenAt, beBytes_length]) (by decide)
+  have hfan : readFan (v3File H es cs) Gen.Pack.v3FanAt = .ok ((List.range' 0 256).map (cumul es)) := by
+    rw [v3_file]
+    have := readFan_tabled v3Pre (cs ++ H (v3Body es cs Gen.Pack.v3FmtSha1 Gen.Pack.v3LenSha1)) es hn
+    rw [v3Pre_length] at this
+    exact this
+  unfold loadIndex
+  have hv : ¬ Gen.Pack.idxV3Version = Gen.Pack.idxV2Version := by decide
+  have hf : ¬ (Gen.Pack.v3FmtSha1 ≠ Gen.Pack.sha1Fmt ∧ Gen.Pack.v3FmtSha1 ≠ Gen.Pack.sha256Fmt) := by decide
+  have hh : ¬ Gen.Pack.sha1Len ≠ (if Gen.Pack.v3FmtSha1 = Gen.Pack.sha1Fmt then Gen.Pack.sha1Len else Gen.Pack.sha256Len) := by
+    decide
+  simp only [hmagic, if_true, hver, hv, if_false, hfmt, hf, hh, hshort, hfan, lastOr0_fan, v3Idx]
+
+theorem v3Idx_tabled (H : Bytes → Bytes) (es : List IdxEntry) (cs : Bytes) :
+    IsTabled (v3Idx H es cs) es Gen.Pack.sha1Len v3Pre
+      (cs ++ H (v3Body es cs Gen.Pack.v3FmtSha1 Gen.Pack.v3LenSha1)) :=
+  ⟨show ¬ (3 : Nat) = 1 by decide, rfl, v3_file H es cs, rfl, by rw [v3Pre_length]; rfl, rfl⟩
+
+theorem write_v3_ok (H : Bytes → Bytes) (es : List IdxEntry) (cs : Bytes)
+    (hcs : cs.length = 20) (hnames : ∀ e ∈ es, e.name.length = 20)
+    (hfield : ∀ e ∈ es, e.crc < 2 ^ 32 ∧ e.offset < 2 ^ 64) :
+    writeIndexV3 H es cs Gen.Pack.v3FmtSha1 = .ok (v3File H es cs) := by
+  unfold writeIndexV3
+  have h3 : es.any (fun e => decide (e.name.length ≠ Gen.Pack.v3LenSha1)) = false := by
+    rw [List.any_eq_false]
+    intro e he
+    simp [hnames e he, Gen.Pack.v3LenSha1]
+  have h4 : structOk es = true := by
+    unfold structOk
+    rw [List.all_eq_true]
+    intro e he
+    simpa using hfield e he
+  have h5 : ¬ cs.length ≠ Gen.Pack.v3LenSha1 := by simp [hcs, Gen.Pack.v3LenSha1]
+  simp only [if_true, h3, Bool.false_eq_true, if_false, h4, not_true_eq_false, h5, v3File]
+
+/-! ### version 1 -/
+
+/-- A sub-slice of the `i`-th item of a table of `w`-byte items. -/
+theorem slice_flatMap_sub {α : Type} (f : α → Bytes) (w o k : Nat) (hok : o + k ≤ w) :
+    ∀ (l : List α) (i : Nat) (hi : i < l.length),
+    (∀ x ∈ l, (f x).length = w) → slice (l.flatMap f) (i * w + o) k = slice (f l[i]) o k := by
+  intro l
+  induction l with
+  | nil => intro i hi; simp at hi
+  | cons x xs ih =>
+    intro i hi hw
+    have hx : (f x).length = w := hw x (List.mem_cons_self)
+    cases i with
+    | zero =>
+      simp only [List.flatMap_cons, Nat.zero_mul, Nat.zero_add, List.getElem_cons_zero]
+      exact slice_within _ _ _ _ (by omega)
+    | succ i =>
+      simp only [List.flatMap_cons, List.getElem_cons_succ]
+      have e : (i + 1) * w + o = w + (i * w + o) := by rw [Nat.succ_mul]; omega
+      rw [e, slice_skip _ _ w _ _ hx]
+      exact ih i (by simpa using hi) (fun y hy => hw y (List.mem_cons_of_mem _ hy))
+
+def v1Entry (e : IdxEntry) : Bytes := beBytes 4 e.offset ++ e.name
+
+theorem v1_file (H : Bytes → Bytes) (es : List IdxEntry) (cs : Bytes) :
+    v1File H es cs = fanoutBytes es ++ (es.flatMap v1Entry ++ (cs ++ H (v1Body es cs))) := by
+  have : (fun e : IdxEntry => beBytes 4 e.offset ++ e.name) = v1Entry := rfl
+  simp [v1File, v1Body, this, List.append_assoc]
+
+theorem v1Entry_length (es : List IdxEntry) (hnames : ∀ e ∈ es, e.name.length = 20) :
+    ∀ e ∈ es, (v1Entry e).length = 24 := by
+  intro e he; simp [v1Entry, beBytes_length, hnames e he]
+
+theorem v1_item (H : Bytes → Bytes) (es : List IdxEntry) (cs : Bytes) (hnames : ∀ e ∈ es, e.name.length = 20)
+    (i : Nat) (hi : i < es.length) (o k : Nat) (hok : o + k ≤ 24) :
+    slice (v1File H es cs) (1024 + (i * 24 + o)) k = slice (v1Entry es[i]) o k := by
+  rw [v1_file, slice_skip _ _ 1024 _ _ (fanoutBytes_length es)]
+  have hl : (es.flatMap v1Entry).length = 24 * es.length := length_flatMap_fixed _ 24 es (v1Entry_length es hnames)
+  rw [slice_within _ _ _ _ (by rw [hl]; omega)]
+  exact slice_flatMap_sub v1Entry 24 o k hok es i hi (v1Entry_length es hnames)
+
+theorem nameAt_v1 (H : Bytes → Bytes) (es : List IdxEntry) (cs : Bytes) (hnames : ∀ e ∈ es, e.name.length = 20)
+    (i : Nat) (hi : i < es.length) : (v1Idx H es cs).nameAt i = es[i].name := by
+  unfold Idx.nameAt
+  have hv : (v1Idx H es cs).version = 1 := rfl
+  have hh : (v1Idx H es cs).hs = 20 := rfl
+  have hc : (v1Idx H es cs).c = v1File H es cs := rfl
+  rw [if_pos hv, hh, hc]
+  simp only [Gen.Pack.v1TableAt, Gen.Pack.v1EntryExtra, Gen.Pack.v1NameSkip]
+  have e : 1024 + i * (4 + 20) + 4 = 1024 + (i * 24 + 4) := by omega
+  rw [e, v1_item H es cs hnames i hi 4 20 (by omega)]
+  have hn := hnames _ (List.getElem_mem hi)
+  unfold v1Entry
+  rw [slice_skip' _ _ 4 0 _ _ (beBytes_length _ _) (by omega), ← hn, slice_full]
+
+theorem offsetAt_v1 (H : Bytes → Bytes) (es : List IdxEntry) (cs : Bytes) (hnames : ∀ e ∈ es, e.name.length = 20)
+    (hoff : ∀ e ∈ es, e.offset < 2 ^ 32) (i : Nat) (hi : i < es.length) :
+    (v1Idx H es cs).offsetAt i = .ok es[i].offset := by
+  unfold Idx.offsetAt
+  have hv : (v1Idx H es cs).version = 1 := rfl
+  rw [if_pos hv]
+  unfold Idx.offsetAtV1
+  have hh : (v1Idx H es cs).hs = 20 := rfl
+  have hc : (v1Idx H es cs).c = v1File H es cs := rfl
+  rw [hh, hc]
+  have h4 : beAt 4 (v1File H es cs) (Gen.Pack.v1TableAt + i * (Gen.Pack.v1EntryExtra + 20)) = some es[i].offset := by
+    have hs4 : slice (v1Entry es[i]) 0 4 = beBytes 4 es[i].offset := by
+      unfold v1Entry
+      have := slice_prefix (beBytes 4 es[i].offset) es[i].name
+      rwa [beBytes_length] at this
+    have hsl : slice (v1File H es cs) (Gen.Pack.v1TableAt + i * (Gen.Pack.v1EntryExtra + 20)) 4
+        = beBytes 4 es[i].offset := by
+      simp only [Gen.Pack.v1TableAt, Gen.Pack.v1EntryExtra]
+      have e : 1024 + i * (4 + 20) = 1024 + (i * 24 + 0) := by omega
+      rw [e, v1_item H es cs hnames i hi 0 4 (by omega), hs4]
+    have hlt : es[i].offset < 256 ^ 4 := hoff _ (List.getElem_mem hi)
+    unfold beAt
+    simp only [hsl, beBytes_length, if_true, beVal_beBytes 4 _ hlt]
+  rw [h4]
+
+theorem load_v1 (H : Bytes → Bytes) (es : List IdxEntry) (cs : Bytes) (hn : es.length < 2 ^ 31) :
+    loadIndex Gen.Pack.sha1Len (v1File H es cs) = .ok (v1Idx H es cs) := by
+  have hfirst : slice (v1File H es cs) 0 4 = beBytes 4 (cumul es 0) := by
+    rw [v1_file]
+    have hl := fanoutBytes_length es
+    rw [slice_within _ _ _ _ (by omega)]
+    unfold fanoutBytes
+    simp only [Gen.Pack.fanEntryBytes, Gen.Pack.fanoutSize]
+    have := slice_flatMap (fun b => beBytes 4 (cumul es b)) 4 (List.range 256) 0 (by simp)
+      (fun x _ => beBytes_length _ _)
+    simpa using this
+  have hmagic : ¬ (v1File H es cs).take Gen.Pack.loadMagicLen = Gen.Pack.idxMagic := by
+    intro h
+    have h' : slice (v1File H es cs) 0 4 = Gen.Pack.idxMagic := by simpa [slice, Gen.Pack.loadMagicLen] using h
+    rw [hfirst] at h'
+    have hv := congrArg beVal h'
+    rw [beVal_beBytes 4 _ (cumul_lt es hn 0)] at hv
+    have hc := countLe_le es 0
+    rw [← cumul_eq_countLe] at hc
+    have hm : beVal Gen.Pack.idxMagic = 4285812579 := by decide
+    omega
+  have hfan : readFan (v1File H es cs) Gen.Pack.v1FanAt = .ok ((List.range' 0 256).map (cumul es)) := by
+    rw [v1_file]
+    unfold readFan fanoutBytes
+    simp only [Gen.Pack.fanEntryBytes, Gen.Pack.fanoutSize]
+    have := readFanFrom_ok [] (es.flatMap v1Entry ++ (cs ++ H (v1Body es cs))) (cumul es) 256 0 rfl
+      (cumul_lt es hn) 256 0 (by omega)
+    simpa [Gen.Pack.v1FanAt] using this
+  unfold loadIndex
+  simp only [hmagic, if_false, ne_eq, not_true_eq_false, hfan, lastOr0_fan, v1Idx]
+
+theorem v1_facts (H : Bytes → Bytes) (es : List IdxEntry) (cs : Bytes) (hnames : ∀ e ∈ es, e.name.length = 20)
+    (hoff : ∀ e ∈ es, e.offset < 2 ^ 32) : IdxFacts (v1Idx H es cs) es 20 :=
+  ⟨rfl, rfl, fun i hi => nameAt_v1 H es cs hnames i hi, fun i hi => offsetAt_v1 H es cs hnames hoff i hi⟩
+
+theorem write_v1_ok (H : Bytes → Bytes) (es : List IdxEntry) (cs : Bytes)
+    (hcs : cs.length = 20) (hnames : ∀ e ∈ es, e.name.length = 20) (hoff : ∀ e ∈ es, e.offset < 2 ^ 32) :
+    writeIndexV1 H es cs = .ok (v1File H es cs) := by
+  unfold writeIndexV1
+  have h2 : es.any (fun e => e.name.isEmpty) = false := by
+    rw [List.any_eq_false]
+    intro e he
+    have := hnames e he
+    cases hn' : e.name with
+    | nil => rw [hn'] at this; simp at this
+    | cons _ _ => simp
+  have h3 : es.any (fun e => decide (e.name.length ≠ Gen.Pack.v1NameLen ∨ e.offset > Gen.Pack.v1MaxOffset)) = false := by
+    rw [List.any_eq_false]
+    intro e he
+    have h1 := hnames e he
+    have h2 := hoff e he
+    have : ¬ (e.name.length ≠ Gen.Pack.v1NameLen ∨ e.offset > Gen.Pack.v1MaxOffset) := by
+      simp only [Gen.Pack.v1NameLen, Gen.Pack.v1MaxOffset]; omega
+    rw [decide_eq_false this]; simp
+  have h5 : ¬ cs.length ≠ Gen.Pack.v1NameLen := by simp [hcs, Gen.Pack.v1NameLen]
+  simp only [h2, Bool.false_eq_true, if_false, h3, h5, v1File]
 
 end Dulwich.PackIndex
